@@ -141,14 +141,19 @@ where
         vec![]
     };
     base.absorb(&point_vec);
-    let finish = |name: &str, v2: Vec<S::F>, cols_of: &dyn Fn(usize, usize) -> Option<Vec<S::F>>, out: &mut Vec<(String, Claim<S>)>| {
+    let indices_for = |v2: &Vec<S::F>| -> Vec<usize> {
         let mut s2 = base.fork();
-        s2.absorb(&v2);
-        let idx = indices_from_sponge(cm.n_ext_cols, t, &mut s2);
+        s2.absorb(v2);
+        indices_from_sponge(cm.n_ext_cols, t, &mut s2)
+    };
+    let finish = |name: &str, v2: Vec<S::F>, cols_of: &dyn Fn(usize, usize) -> Option<Vec<S::F>>, out: &mut Vec<(String, Claim<S>)>| {
+        let idx = indices_for(&v2);
         let mut columns = vec![];
         let mut paths = vec![];
+        let mut any_forged = false;
         for (j, &q) in idx.iter().enumerate() {
             let Some(c) = cols_of(j, q) else { return };
+            any_forged |= c != ctx.ext_cols[q];
             columns.push(c);
             let Ok(p) = ctx.tree.generate_proof(q) else { return };
             paths.push(p);
@@ -156,6 +161,12 @@ where
         let claimed = dot(&v2, &a);
         if claimed == values[victim_pos] {
             return; // the forged statement would be true
+        }
+        if name.starts_with("forged-columns") && !any_forged {
+            // every queried column is authentic: the false v' agrees with the committed matrix on all
+            // t queried positions - the code's statistical soundness error at toy parameters, not a
+            // verifier that accepts something it must refuse
+            return;
         }
         let mut m2 = mirror.clone();
         m2[victim_pos] = LcProofMirror { paths, v: v2, columns, well_formedness: hon.well_formedness.clone() };
@@ -214,6 +225,79 @@ where
             }
         }
     }
+    // (d) forged columns for v' = v + c*D where E(D) vanishes on a large set Q of codeword positions
+    //     (D from the null space of the encoding restricted to Q): the columns at positions inside Q
+    //     are the authentic ones with their authentic paths, only the others are forged. c is ground
+    //     until the LAST queried position falls inside Q - accepted by a verifier that lets one good
+    //     path stand for all of them, refused by one that authenticates every column.
+    if cm.n_rows >= 2 && !a.is_empty() && cm.n_cols >= 2 && cm.n_cols <= 64 {
+        let nq = (cm.n_cols - 1).min(cm.n_ext_cols);
+        let basis: Option<Vec<Vec<S::F>>> = (0..cm.n_cols).map(|i| { let mut e = vec![S::F::zero(); cm.n_cols]; e[i] = S::F::from(1u64); L::encode(&e, params).ok() }).collect();
+        if let Some(basis) = basis {
+            // rows: positions 0..nq, columns: message coordinates
+            let m: Vec<Vec<S::F>> = (0..nq).map(|q| (0..cm.n_cols).map(|i| basis[i][q]).collect()).collect();
+            if let Some(delta) = null_vector(m, cm.n_cols) {
+                if let Ok(e_delta) = L::encode(&delta, params) {
+                    let det = if wf { r[0] * b[1] - r[1] * b[0] } else { b[0] };
+                    if !det.is_zero() && e_delta.iter().any(|x| !x.is_zero()) {
+                        for c in 1..=24u64 {
+                            let cf = S::F::from(c) * S::F::from((f.param | 1) as u64);
+                            let v2: Vec<S::F> = hon.v.iter().zip(delta.iter()).map(|(x, d)| *x + cf * d).collect();
+                            let idx = indices_for(&v2);
+                            let Some(&last) = idx.last() else { break };
+                            if !e_delta[last].is_zero() { continue; }
+                            let cols = |_: usize, q: usize| -> Option<Vec<S::F>> {
+                                let need = cf * e_delta[q];
+                                let mut col = ctx.ext_cols[q].clone();
+                                if need.is_zero() { return Some(col); }
+                                if wf {
+                                    let inv = det.inverse()?;
+                                    col[0] += -r[1] * need * inv;
+                                    col[1] += r[0] * need * inv;
+                                } else {
+                                    col[0] += need * b[0].inverse()?;
+                                }
+                                Some(col)
+                            };
+                            finish("forged-columns-last-authentic", v2, &cols, &mut out);
+                            break;
+                        }
+                    }
+                }
+            }
+        }
+    }
     let _ = point;
     out
+}
+
+/// a non-zero vector of the null space of `m` (rows x n), if the rank is below n
+fn null_vector<F: Field>(mut m: Vec<Vec<F>>, n: usize) -> Option<Vec<F>> {
+    let rows = m.len();
+    let mut pivot_col_of_row: Vec<usize> = vec![];
+    let mut row = 0;
+    let mut is_pivot = vec![false; n];
+    for col in 0..n {
+        if row >= rows { break; }
+        let Some(p) = (row..rows).find(|&i| !m[i][col].is_zero()) else { continue };
+        m.swap(row, p);
+        let inv = m[row][col].inverse()?;
+        for j in col..n { m[row][j] *= inv; }
+        for i in 0..rows {
+            if i != row && !m[i][col].is_zero() {
+                let f = m[i][col];
+                for j in col..n { let t = m[row][j] * f; m[i][j] -= t; }
+            }
+        }
+        pivot_col_of_row.push(col);
+        is_pivot[col] = true;
+        row += 1;
+    }
+    let free = (0..n).find(|&c| !is_pivot[c])?;
+    let mut x = vec![F::zero(); n];
+    x[free] = F::one();
+    for (i, &pc) in pivot_col_of_row.iter().enumerate() {
+        x[pc] = -m[i][free];
+    }
+    Some(x)
 }
